@@ -84,13 +84,15 @@ def _species(rng):
     return species
 
 
-def _place(rng, mol, species, n_sites, required=()):
+def _place(rng, mol, species, n_sites, required=(), aromatic_sites=False):
     """Choose descriptor sites on a generated fragment. Returns atom -> [(kind,label,order)]."""
     descs = defaultdict(list)
     budget = {}
     for i, atom in enumerate(mol.atoms):
         if mol.kind == "atomistic":
-            budget[i] = 0 if (atom["arom"] or atom["el"] == "H") else mol.free(i)
+            # descriptors on aromatic ring atoms only when asked for: the sampler cannot bond through them and
+            # raises (nothing is returned, an outcome) - unless a change makes it return something after all
+            budget[i] = 0 if ((atom["arom"] and not aromatic_sites) or atom["el"] == "H") else mol.free(i)
             if atom["charge"]:
                 budget[i] = 0
             if mol.is_sp(i) and rng.random() < 0.7:
@@ -119,6 +121,8 @@ def gen_config(rng, all_atom=None, tier="quick"):
     wild = rng.random() < 0.15
     weighted = rng.random() < 0.35
     hyper = rng.random() < 0.35
+    import os
+    aromatic_sites = rng.random() < float(os.environ.get("VERIF_AROMATIC_SITES", "0.2"))
     explicit_h = rng.random() < 0.25
     species = _species(rng)
     n_frag = rng.choice([1, 2, 2, 3, 3, 4])
@@ -130,7 +134,8 @@ def gen_config(rng, all_atom=None, tier="quick"):
     for idx, name in enumerate(names):
         for _ in range(8):
             if all_atom:
-                mol = gen_mol.gen_atomistic(rng, rng.randint(1, 7), rich=rng.random() < 0.35,
+                mol = gen_mol.gen_atomistic(rng, rng.randint(1, 7) if not aromatic_sites else rng.randint(4, 10),
+                                            rich=(rng.random() < 0.35) or aromatic_sites,
                                             hyper=("S", "P", "N") if hyper else (), explicit_h=explicit_h)
                 if weighted:
                     for atom in mol.atoms:
@@ -141,7 +146,7 @@ def gen_config(rng, all_atom=None, tier="quick"):
                 mol = gen_mol.gen_coarse(rng, rng.randint(1, 5))
             share = [pending.pop() for _ in range(min(len(pending), -(-len(pending) // (n_frag - idx))))]
             n_sites = rng.choice([1, 2, 2, 3, 4])
-            descs, placed = _place(rng, mol, species, max(n_sites, len(share)), required=share)
+            descs, placed = _place(rng, mol, species, max(n_sites, len(share)), required=share, aromatic_sites=aromatic_sites)
             missing = [s for s in share if not any(s in v for v in descs.values())]
             if placed >= 1 and not missing:
                 break
